@@ -15,6 +15,19 @@ CLAIMS = {
     ),
 }
 
+CLAIMS["C17"] = (
+    "path rules / typestate over SSA control-flow graphs (error-before-marker, drain-after-done, checked flush), who-may-exit call-graph rule, dropped-error enumeration",
+    "Decides that every error that is raised reaches a non-zero exit in every send/receive order: on every CFG path a verb's error is posted before the end-of-stream marker, the writer posts before done, every done-waiter drains the error channels afterwards, Flush/Close errors of output are returned, no module error result on the data path is discarded (1 000+ call sites enumerated, discards classified), failed low-level reads are reported and end the read loop, os.Exit only from the keep-list with non-zero constant status, exitOnError always exits. It does not decide that a reader detects a given malformed input.",
+    "Trusts go/ssa's CFG, that select picks among ready channels arbitrarily, that a send on a full buffered channel blocks, and that bufio.Writer errors are sticky. Frozen exception tables (exit keep-list, tolerated discards) are in checker/exits.go and checker/c17.go with one reason per entry.",
+    "DESIGN.md §3 C17",
+)
+CLAIMS["C19"] = (
+    "typestate on the SSA CFG of entrypoint.processFileInPlace + value-flow (who may touch the target) + dominance + table agreement of the refusal helpers",
+    "Decides the code half of the crash-consistency claim on every path, including all error paths: the target name flows only to stat/read/rename-destination/chmod; rename is reached only after Stream returned nil (whose nil return implies a checked Flush) and both closes succeeded; every failing exit after CreateTemp removes the temp file; refusals precede CreateTemp; temp is in the target's directory; per-file re-parse, one file per stream, stop at first error; chmod uses the pre-temp mode; no unexpected os.Exit reachable inside the stream. The file system's atomic rename is trusted, not decided.",
+    "Trusts rename(2) atomicity within a directory and go/ssa. The keep-list of exit sites is frozen in checker/exits.go.",
+    "DESIGN.md §3 C19",
+)
+
 NOT_APPLICABLE = {
     "C13": "Join pairing, ordering and unpaired accounting are relational identities over run-time key values and bucket contents; no clause is a shape fact visible to static analysis (the shared protocol facts are reported under C04/C10/C17).",
 }
